@@ -21,7 +21,7 @@ CORE = {
  "C16": "`reduced_gaussian` (symbolic size), consumers hand the reduced data on; bosonic state methods (symbolic values); Fock / Gaussian index strings with labelled tensors (`dm`, `trace`, `reduced_dm`, `fidelity`, pure-branch order); bosonic `marginal`; Fock `fidelity`",
  "C17": "T/Ti/MZ block structure, T.Ti = I, nulling lemmas; LAPACK routines bounded; drivers `graph_embed` / `bipartite_graph_embed` against callee contracts; `takagi` validation (absolute tolerance)",
  "C18": "`Program.__eq__` for circuits of any length; `program_equivalence` per class/placement and, for 2-3 commands, the labelled graphs handed to networkx (every node carries its own command's data), also structure-only",
- "C19": "`sample_to_event`, `orbit_to_sample` for any length; combinatorics and local search (all outcomes enumerated) bounded",
+ "C19": "`sample_to_event`, `orbit_to_sample`, `postselect` for any length; combinatorics and local search (all outcomes enumerated) bounded",
 }
 rows = ["| id | level | unbounded | shape-bounded | stand-ins | core of what is discharged |", "|----|-------|-----------|---------------|-----------|-----------------------------|"]
 for pid in sorted(CORE):
